@@ -196,6 +196,18 @@ def opOfJson (j : Json) : Op :=
   | "crashLocal" => .crashLocal (getNat j "rpc") (getNat j "k")
   | _ => .crashAdjacent (getNat j "rpc") (getNat j "k")
 
+def decodedJson (d : Decoded) : Json :=
+  Json.arr (d.map (fun (k, v) => Json.arr #[Json.str k, match v with | some t => Json.str t | none => Json.null])).toArray
+
+def svalJson : SVal → Json
+  | .text s => Json.mkObj [("s", Json.str s)]
+  | .int i => Json.mkObj [("i", Json.str (toString i))]
+  | .float t => Json.mkObj [("f", Json.str t)]
+  | .ints xs => Json.mkObj [("ints", Json.arr (xs.map (fun i => Json.str (toString i))).toArray)]
+  | .texts xs => Json.mkObj [("texts", toJson xs)]
+
+def attrsJson (a : Attrs) : Json := Json.arr (a.map (fun (k, v) => Json.arr #[Json.str k, svalJson v])).toArray
+
 def layoutByName : String → Option Con
   | "recordPreamble" => some Gen.recordPreamble
   | "imageFileDescriptor" => some Gen.imageFileDescriptor
@@ -266,6 +278,39 @@ def step (j : Json) : Json :=
         | _ => match pv with
           | .list recs => Json.mkObj [("ok", grpJson (transformLineMetadata recs))]
           | _ => Json.mkObj [("bad", Json.null)]
+  | "decode" =>
+    let str := getStr j "s"
+    let r : Except Err Json := match getStr j "fn" with
+      | "scene_id" => (decodeSceneId str).map decodedJson
+      | "product_id" => (decodeProductId str).map decodedJson
+      | "scan_info" => (decodeScanInfo (match j.getObjVal? "s" with | .ok (.str t) => some t | _ => none)).map decodedJson
+      | "filename" => (decodeFilename str).map decodedJson
+      | _ => (groupName str).map Json.str
+    match r with
+    | .ok v => Json.mkObj [("ok", v)]
+    | .error e => Json.mkObj [("err", Json.str e.name)]
+  | "summary" =>
+    match parseSummary (getStr j "text").toList with
+    | .error lines => Json.mkObj [("lines", toJson lines)]
+    | .ok secs =>
+      match transformSummary secs with
+      | .error e => Json.mkObj [("err", Json.str e.name)]
+      | .ok gs => Json.mkObj [("ok", Json.arr (gs.map (fun (name, g) => Json.arr #[Json.str name,
+          Json.mkObj [("attrs", attrsJson g.attrs), ("groups", Json.arr (g.groups.map (fun (n, a) => Json.arr #[Json.str n, attrsJson a])).toArray)]])).toArray)]
+  | "time" =>
+    let what := getStr j "what"
+    let showE (r : Except Err Int) : Json := match r with
+      | .ok v => Json.mkObj [("ok", Json.str (toString v))]
+      | .error e => Json.mkObj [("err", Json.str e.name)]
+    let showO (r : Option Int) : Json := match r with
+      | some v => Json.mkObj [("ok", Json.str (toString v))]
+      | none => Json.mkObj [("err", Json.str "ValueError")]
+    match what with
+    | "line" => showE (lineTimeNs (getNat j "y") (getNat j "doy") (getNat j "ms"))
+    | "line_us" => showE (lineTimeUsNs (getNat j "y") (getNat j "doy") (getNat j "ms") (getNat j "us"))
+    | "digits" => showO (digitsTextNs (getStr j "text"))
+    | "first_point" => showO (firstPointNs (getNat j "y") (getNat j "mo") (getNat j "d") (getNat j "sec") (getStr j "frac").toList)
+    | _ => Json.mkObj [("ok", Json.str (toString (attitudeNs (getNat j "y") (getNat j "doy") (getNat j "ms"))))]
   | "json_dump" => Json.mkObj [("text", Json.str (String.ofList (dump (pyOfJson ((j.getObjVal? "val").toOption.getD .null)))))]
   | "json_loads" =>
     match jsonLoads (getStr j "text").toList with
